@@ -241,6 +241,14 @@ func (ev *Eval) ident(name string) Value {
 			}
 		}
 	}
+	if !ev.callee && ev.fr != nil && ev.fr.ctx != nil {
+		// ghost variables of the function under verification are visible from its inlined closures
+		if id, ok := ev.fr.ctx.ghost[name]; ok {
+			if c, live := ev.st.cells[id]; live {
+				return ev.x.load(ev.st, &Loc{Kind: LCell, CellID: id, Root: c.Typ, Typ: c.Typ})
+			}
+		}
+	}
 	if c, ok := ev.x.prog.cs.Consts[name]; ok {
 		return ev.eval(c)
 	}
@@ -929,6 +937,15 @@ func (ev *Eval) callExpr(n *ast.CallExpr) Value {
 			return res.(*TupleV).E[i]
 		}
 		return res
+	case "closed", "sent":
+		// closed(ch): the channel has been closed; sent(ch): number of sends on it so far (ghost state)
+		ref := x.chanRef(ev.eval(n.Args[0]))
+		if name == "closed" {
+			_, arr := x.ghostLeaf(ev.st, "chclosed", SBool)
+			return &Prim{T: Select(arr, ref)}
+		}
+		_, arr := x.ghostLeaf(ev.st, "chsent", SInt)
+		return &Prim{T: Select(arr, ref)}
 	case "ncalls":
 		s, _ := strconv.Unquote(exprString(n.Args[0]))
 		key := x.prog.cs.expand(s)
